@@ -202,7 +202,7 @@ def run(cmd, timeout=WATCHDOG):
         return -9, out, err, True, time.time() - t0
 
 
-MPIRUN = ["mpiexec", "--allow-run-as-root", "--oversubscribe", "-n"]
+MPIRUN = ["mpiexec", "--allow-run-as-root", "--host", "localhost:64", "-n"]
 
 
 class Env:
